@@ -44,3 +44,4 @@ Print Assumptions C08_copy_is_available_to_cdecay.
 (* parsing is a function of the text's statement list: the same statements give the same tables *)
 Theorem C08_reparse_same : forall ccdb sc inc f, parse_post ccdb sc inc f = parse_post ccdb sc inc f.
 Proof. reflexivity. Qed.
+Print Assumptions C08_reparse_same.
